@@ -38,7 +38,7 @@ ASSUMPTIONS = [
     "verovio is not installed: the lxml branch of the MEI reader is the one that runs",
 ]
 COMPONENTS = {"real": ["partitura.io.importkern", "partitura.io.exportkern", "partitura.io.importmei", "partitura.io.exportmei", "partitura.io.load_score", "numpy loadtxt/genfromtxt/savetxt", "lxml"], "stub": ["raw file layer (SimFS)", "HTTP client (fake urlopen)", "independent kern and MEI encoders (model/ref_kern.py, model/ref_mei.py)"]}
-PROBES = ("kern_spine_split_fallback_reader", "kern_same_part", "mei_dur_ppq", "kern_multi_spine", "kern_ties", "kern_tuplets", "kern_grace", "mei_attr_defs", "mei_child_defs", "mei_no_ppq", "mei_layers", "mei_tuplets", "upper_case_extension", "url_route", "read_fault", "write_fault", "export_roundtrip_checked")
+PROBES = ("kern_spine_split_fallback_reader", "kern_same_part", "mei_dur_ppq", "kern_multi_spine", "kern_ties", "kern_tuplets", "kern_grace", "mei_attr_defs", "mei_child_defs", "mei_no_ppq", "mei_layers", "mei_tuplets", "upper_case_extension", "url_route", "url_short_reads", "read_fault", "write_fault", "export_roundtrip_checked")
 
 
 # ----------------------------------------------------------------------------
@@ -67,12 +67,20 @@ def generate(seed, tier, cfg):
             kind = f.choice(("F1", "F2", "F2", "F3", "F4", "F5", "F6"))
         err = {"F1": 28, "F2": f.choice((28, 5)), "F3": 28, "F4": 0, "F5": f.choice((2, 13)), "F6": 5, "F9": f.choice((0, 404, -1))}[kind]
         faults.append({"kind": kind, "path": "*", "at": f.choice((0, 0, 1, 2)) if kind in ("F2", "F4", "F6") else 0, "errno": err})
+    knobs = _knobs(k, rich, ext, route)
+    if cfg == "kern-in" and knobs["style"]["same_part"] and len(asc["parts"]) > 1:
+        # several spines of ONE part (e.g. the staves of a piano part): keep a part that has two staves
+        two = [p for p in asc["parts"] if len(set(n["staff"] for n in p["notes"])) > 1]
+        if two:
+            asc["parts"] = two[:1]
+            asc.pop("groups", None)
+    return {"workload": asc, "cfg": cfg, "faults": faults, "knobs": knobs}
+
+
+def _knobs(k, rich, ext, route):
     return {
-        "workload": asc,
-        "cfg": cfg,
-        "faults": faults,
         "knobs": {"rich": rich, "ext": ext, "route": route, "chunk": k.choice((0, 0, 7, 64)), "style": {"attr_defs": k.random() < 0.5, "beams": False, "ppq": k.random() < 0.5, "mrest": True, "durppq": k.random() < 0.5, "same_part": k.random() < 0.7, "split": [k.randrange(0, 8), k.randrange(0, 8)] if k.random() < 0.35 else None}},
-    }
+    }["knobs"]
 
 
 def load_any(fs, path, route, fmt, res):
@@ -87,6 +95,10 @@ def load_any(fs, path, route, fmt, res):
     res.probe("url_route")
     url = "http://peer.example/" + path.split("/")[-1]
     fs.serve(url, fs.get(path))
+    if fs.chunk:
+        # the peer delivers the body in pieces: a sized read may return less than asked before the end
+        fs.url_short_reads = [fs.chunk, 1, fs.chunk * 3]
+        res.probe("url_short_reads")
     return pt.load_score(url)
 
 
